@@ -22,7 +22,8 @@ from phase to phase.
 Two cases:
 * the rest of the sheet does not continue from the block (`InsertCovered`, `insert_twin_traces_partial`);
 * the rest of the sheet CONTINUES from the block — a later row with a blank `from` right after the
-  block, or naming the block's row id, any number of them — provided no row leading into the block
+  block, or naming the block's row id, any number of them; the insert row at any block depth (inside
+  blocks and loops: `exInside`) — provided no row leading into the block
   has an unconnected exit left (without this F-C03-a separates the two forms:
   `needs_post_avoids_block`): on the run (`InsertContinues`, `insert_twin_continues_traces_partial`)
   and, on the EVENTS, for an insert row that directly follows a plain action row it is attached to
@@ -291,17 +292,17 @@ def InsertTight (noArgs testTypes : List Str) (pre : List Compile.Event) (r r₁
     (Compile.initSt noArgs testTypes) = .ok ((), a₂) → Compile.TightAt a₂
 
 /-- The sheets that continue from the block, condition on the run of the twin: as `InsertCovered`, but
-the rows after the block may use a blank `from` right after it and may name its row id (`apart` only
-forbids the template's own row ids); instead the twin block is tight (`InsertTight`) and no later
-row — also of later inserted templates — is a `loose_exit` row (`needs_no_loose_exit_after`). -/
+the insert row may be at ANY block depth (inside blocks and loops), and the rows after the block may
+use a blank `from` right after it and may name its row id (`apart` only forbids the template's own
+row ids, by an edge or as a `go_to` destination); instead the twin block is tight (`InsertTight`) and
+no later row — also of later inserted templates — is a `loose_exit` row (`needs_no_loose_exit_after`). -/
 structure InsertContinues (noArgs testTypes : List Str) (pre : List Compile.Event) (r : Compile.Row)
     (body post : List Compile.Event) : Prop where
   entry : ∃ r₁ rest, body = .row r₁ :: rest ∧ Compile.EntryRow r₁ ∧ Compile.noStartL rest = true ∧
     Compile.noNamesL rest = true ∧ InsertTight noArgs testTypes pre r r₁
   ids : Compile.okIdsL (pre ++ [.insert r body] ++ post) = true
-  top : Compile.opens pre = Compile.closes pre
   noLoose : Compile.noLooseL post = true
-  apart : Compile.avoids (Compile.defsL body) false 0 post = true
+  apart : Compile.avoidsOpen (Compile.defsL body) post = true
 
 theorem insert_twin_continues_nodes_partial (noArgs testTypes : List Str) (pre post body : List Compile.Event)
     (r : Compile.Row) (hc : InsertContinues noArgs testTypes pre r body post) {o₁ o₂ : Compile.Out}
@@ -309,7 +310,7 @@ theorem insert_twin_continues_nodes_partial (noArgs testTypes : List Str) (pre p
     (h₂ : Compile.compile noArgs testTypes (pre ++ insertTwin r body ++ post) = .ok o₂) :
     ∃ ρ : Compile.Uid → Compile.Uid, Injective ρ ∧ o₂.nodes = o₁.nodes.map (Compile.rnNode ρ) := by
   obtain ⟨r₁, rest, rfl, he, hns, hnn, ht⟩ := hc.entry
-  exact Compile.insert_twin_nodes_open noArgs testTypes pre post rest r r₁ he hns hnn hc.ids hc.top ht hc.noLoose
+  exact Compile.insert_twin_nodes_open noArgs testTypes pre post rest r r₁ he hns hnn hc.ids ht hc.noLoose
     hc.apart h₁ h₂
 
 theorem traces_of_nodes {o₁ o₂ : Compile.Out}
@@ -331,7 +332,7 @@ theorem insert_twin_continues_traces_partial (noArgs testTypes : List Str) (pre 
       trace lvl (Compile.renderOut o₁) env n = trace lvl (Compile.renderOut o₂) env n :=
   traces_of_nodes (insert_twin_continues_nodes_partial noArgs testTypes pre post body r hc h₁ h₂)
 
-/-- The same, condition on the EVENTS: the insert row directly follows a plain action row `q`
+/-- The same, condition on the EVENTS (again at any block depth): the insert row directly follows a plain action row `q`
 (`send_message`, `save_value`, `add_to_group`, `remove_from_group`, `save_flow_result`; no `_nodeId`)
 and is attached to it — and to nothing else — unconditionally, by a blank `from` or by `q`'s row id.
 Then `q`'s node is a basic node whose only exit the edge into the block connects: the twin is tight. -/
@@ -341,9 +342,8 @@ structure InsertFollows (pre' : List Compile.Event) (q r : Compile.Row) (body po
   entry : ∃ r₁ rest, body = .row r₁ :: rest ∧ Compile.EntryRow r₁ ∧ Compile.noStartL rest = true ∧
     Compile.noNamesL rest = true
   ids : Compile.okIdsL ((pre' ++ [.row q]) ++ [.insert r body] ++ post) = true
-  top : Compile.opens pre' = Compile.closes pre'
   noLoose : Compile.noLooseL post = true
-  apart : Compile.avoids (Compile.defsL body) false 0 post = true
+  apart : Compile.avoidsOpen (Compile.defsL body) post = true
 
 /-- **…for every sheet of the shape the harness's twin workbooks have** -/
 theorem insert_twin_follows_traces_partial (noArgs testTypes : List Str) (pre' post body : List Compile.Event)
@@ -354,7 +354,7 @@ theorem insert_twin_follows_traces_partial (noArgs testTypes : List Str) (pre' p
       trace lvl (Compile.renderOut o₁) env n = trace lvl (Compile.renderOut o₂) env n := by
   obtain ⟨r₁, rest, rfl, he, hns, hnn⟩ := hc.entry
   exact traces_of_nodes (Compile.insert_twin_nodes_follows noArgs testTypes pre' post rest q r r₁ hc.parent
-    hc.attached he hns hnn hc.ids hc.top hc.noLoose hc.apart h₁ h₂)
+    hc.attached he hns hnn hc.ids hc.noLoose hc.apart h₁ h₂)
 
 /-- the condition on the events implies the condition on the run -/
 theorem insertFollows_tight (noArgs testTypes : List Str) (pre' : List Compile.Event) (q r r₁ : Compile.Row)
@@ -383,12 +383,12 @@ def exAft1 : Compile.Row := insRow "aft1" "send_message" [insEdge "b1"] (some "a
 a row continuing from that -/
 theorem exHarness1 : InsertFollows [] exM1 exB0 exTmpl [.row exAft0, .insert exB1 exTmpl, .row exAft1] :=
   ⟨by decide, ⟨insEdge "m1", by decide, by decide, .inr ⟨by decide, by decide, by decide⟩⟩,
-    ⟨_, _, rfl, by decide, by decide, by decide⟩, by decide, by decide, by decide, by decide⟩
+    ⟨_, _, rfl, by decide, by decide, by decide⟩, by decide, by decide, by decide⟩
 
 /-- the second insertion, the first one already replaced by its twin block -/
 theorem exHarness2 : InsertFollows ([.row exM1] ++ insertTwin exB0 exTmpl) exAft0 exB1 exTmpl [.row exAft1] :=
   ⟨by decide, ⟨insEdge "aft0", by decide, by decide, .inr ⟨by decide, by decide, by decide⟩⟩,
-    ⟨_, _, rfl, by decide, by decide, by decide⟩, by decide, by decide, by decide, by decide⟩
+    ⟨_, _, rfl, by decide, by decide, by decide⟩, by decide, by decide, by decide⟩
 
 /-- the three sheets: both insert rows / the first one replaced / both replaced -/
 def exSheet0 : List Compile.Event :=
@@ -437,6 +437,32 @@ example : ∃ o₀ o₂, Compile.compile [] insTests exSheet0 = .ok o₀ ∧ Com
   intro lvl env n
   rw [exStep1 h₀ h₁ lvl env n, exStep2 h₁' h₂ lvl env n]
 
+/-! #### inside a block -/
+
+/-- a block entered from the first row; in it a row and the insert row attached to it by a blank `from` -/
+def exInPre : List Compile.Event :=
+  [ .row exM1, .openGroup [insEdge "m1"] false ]
+def exInQ : Compile.Row := insRow "q" "send_message" [insEdge ""] (some "in the outer block")
+def exInIns : Compile.Row := insRow "I" "insert_as_block" [insEdge ""]
+/-- a row continuing from the inserted block inside the outer block, the end of the outer block, a
+row continuing from the outer block -/
+def exInPost : List Compile.Event :=
+  [ .row (insRow "c1" "send_message" [insEdge ""] (some "continues")), .closeGroup "B".toList,
+    .row (insRow "z" "send_message" [insEdge "B"] (some "after the outer block")) ]
+
+theorem exInside : InsertFollows exInPre exInQ exInIns exTmpl exInPost :=
+  ⟨by decide, ⟨insEdge "", by decide, by decide, .inl rfl⟩,
+    ⟨_, _, rfl, by decide, by decide, by decide⟩, by decide, by decide, by decide⟩
+
+/-- non-vacuity at depth 1: both sheets compile (8 nodes) and behave alike -/
+example : ∃ o₁ o₂, Compile.compile [] insTests ((exInPre ++ [.row exInQ]) ++ [.insert exInIns exTmpl] ++ exInPost) = .ok o₁ ∧
+    Compile.compile [] insTests ((exInPre ++ [.row exInQ]) ++ insertTwin exInIns exTmpl ++ exInPost) = .ok o₂ ∧
+    ∀ lvl env n, trace lvl (Compile.renderOut o₁) env n = trace lvl (Compile.renderOut o₂) env n := by
+  obtain ⟨o₁, o₂, h₁, h₂⟩ := bothCompile_some
+    (show bothCompile ((exInPre ++ [.row exInQ]) ++ [.insert exInIns exTmpl] ++ exInPost)
+      ((exInPre ++ [.row exInQ]) ++ insertTwin exInIns exTmpl ++ exInPost) = some 8 by decide +kernel)
+  exact ⟨o₁, o₂, h₁, h₂, insert_twin_follows_traces_partial [] insTests _ _ _ _ _ exInside h₁ h₂⟩
+
 /-! #### the hypotheses are needed -/
 
 /-- **tightness is needed** (F-C03-a): the insert row of `needs_post_avoids_block` is attached to a wait
@@ -445,8 +471,8 @@ continues from the block behaves differently from the twin -/
 theorem needs_tight :
     ¬ Compile.PlainRow (insRow "m1" "wait_for_response" [insEdge "start"]) ∧
     ¬ Compile.Follows (insRow "m1" "wait_for_response" [insEdge "start"]) wIns ∧
-    Compile.noLooseL wPostNamed = true ∧ Compile.avoids (Compile.defsL wBody) false 0 wPostNamed = true ∧
-    Compile.avoids (Compile.defsL wBody) false 0 wPostBlank = true ∧
+    Compile.noLooseL wPostNamed = true ∧ Compile.avoidsOpen (Compile.defsL wBody) wPostNamed = true ∧
+    Compile.avoidsOpen (Compile.defsL wBody) wPostBlank = true ∧
     (∃ o₁ o₂, Compile.compile [] insTests (wPre ++ [.insert wIns wBody] ++ wPostNamed) = .ok o₁ ∧
       Compile.compile [] insTests (wPre ++ insertTwin wIns wBody ++ wPostNamed) = .ok o₂ ∧
       trace ⟨true, true⟩ (Compile.renderOut o₁) (fun _ => 1) 3 ≠ trace ⟨true, true⟩ (Compile.renderOut o₂) (fun _ => 1) 3) := by
@@ -466,7 +492,7 @@ def lPost : List Compile.Event :=
 row continuing from the block then picks that exit up in the twin only (F-C03-a again) -/
 theorem needs_no_loose_exit_after :
     Compile.PlainRow (insRow "m1" "send_message" [insEdge "start"] (some "hello")) ∧
-    Compile.noLooseL lPost = false ∧ Compile.avoids (Compile.defsL (sBody.take 1)) false 0 lPost = true ∧
+    Compile.noLooseL lPost = false ∧ Compile.avoidsOpen (Compile.defsL (sBody.take 1)) lPost = true ∧
     ∃ o₁ o₂, Compile.compile [] insTests (sPre ++ [.insert sIns (sBody.take 1)] ++ lPost) = .ok o₁ ∧
       Compile.compile [] insTests (sPre ++ insertTwin sIns (sBody.take 1) ++ lPost) = .ok o₂ ∧
       trace ⟨true, true⟩ (Compile.renderOut o₁) (fun _ => 0) 4 ≠ trace ⟨true, true⟩ (Compile.renderOut o₂) (fun _ => 0) 4 :=
@@ -474,13 +500,18 @@ theorem needs_no_loose_exit_after :
 
 /-! ### what remains -/
 
-/-- The clause on the model at the strength aimed at: as the two theorems above
-(`insert_twin_traces_partial`, `insert_twin_continues_traces_partial`), but with the insert row at ANY
-block depth (inside blocks and loops) and `_nodeId`s / node names allowed in the template.
+/-- The clause on the model at the strength aimed at: as the theorems above, with `_nodeId`s / node
+names allowed in the template, and the not-continuing alternative (`InsertCovered`) at any block
+depth too.
 
-Proved of it: both alternatives for insert rows outside blocks and templates without `_nodeId`s, on
-the run (`InsertTight`) and on the events (`InsertFollows`).  Not proved:
-* insert rows inside blocks or loops (`top`); `_nodeId`s / node names in the template;
+Proved of it: the alternative "the sheet does not continue from the block" for insert rows outside
+blocks (`insert_twin_traces_partial`); the alternative "the sheet may continue from the block, the
+twin block is tight" at ANY block depth, on the run (`InsertTight`,
+`insert_twin_continues_traces_partial`) and on the events (`InsertFollows`,
+`insert_twin_follows_traces_partial`); templates without `_nodeId`s.  Not proved:
+* `_nodeId`s / node names in the template;
+* the not-continuing alternative for insert rows inside blocks or loops when the twin block is not
+  tight (F-C03-a-prone sheets that stay away from the block and from the blocks around it);
 * a template starting with a block, a `no_op`, a nested insert row or several `start` rows (the
   twin of the clause is wrong for several `start` rows: `needs_single_start`);
 * tightness on the events beyond "directly follows a plain action row" (e.g. a router all of whose
@@ -495,7 +526,7 @@ def insert_twin_full : Prop :=
   ∀ (noArgs testTypes : List Str) (pre post body : List Compile.Event) (r : Compile.Row),
     (∃ r₁ rest, body = .row r₁ :: rest ∧ Compile.EntryRow r₁ ∧ Compile.noStartL rest = true ∧
       (Compile.avoids (Compile.hidden r body) true 0 post = true ∨
-        (Compile.avoids (Compile.defsL body) false 0 post = true ∧ Compile.noLooseL post = true ∧
+        (Compile.avoidsOpen (Compile.defsL body) post = true ∧ Compile.noLooseL post = true ∧
           InsertTight noArgs testTypes pre r r₁))) →
     Compile.okIdsL (pre ++ [.insert r body] ++ post) = true →
     ∀ o₁ o₂, Compile.compile noArgs testTypes (pre ++ [.insert r body] ++ post) = .ok o₁ →
